@@ -118,7 +118,8 @@ TEXT_PAYLOAD = {'TRACE_STRING_NEWTHREAD', 'TRACE_STRING_EXEC', 'TRACE_STRING_PRO
 
 TEXTS = [b'launchd', b'/usr/lib/dyld', b'Safari', b'caf\xc3\xa9', b'', b'a', b'kernel_task', b'com.apple.main-thread',
          b'\xe6\x97\xa5\xe6\x9c\xac\xe8\xaa\x9e', b'x' * 24, b'/private/var/db/file.plist',
-         b'a-name-that-fills-all-32-bytes!!', b'thirty-two-bytes-ending-in-\xc3\xa9\xc3\xa9z']      # the last two: exactly 32 bytes
+         b'a-name-that-fills-all-32-bytes!!', b'thirty-two-bytes-ending-in-\xc3\xa9\xc3\xa9z',      # these two: exactly 32 bytes
+         'Cafe\u0301 \u212b \ufb01le'.encode(), 'app\U0001f34e\u0130'.encode()]     # spellings that normalisation / case mapping change
 assert all(len(t) <= 32 for t in TEXTS)
 
 
